@@ -253,6 +253,12 @@ def run(P, R, tier):
             if m2 is not None and m2[0] == 'func' and m2[1] not in meas:
                 meas.append(m2[1])
     common.decorated_methods(P, R, 'C14.c', meas)
+    # no measure without the kernel: every return of a length/area that has a kernel passes through it
+    for f_ in meas:
+        if f_.name in ('length', 'area') and any((lambda r: r and r[0] == 'func' and (r[1].name.startswith('_geometry_map_nested') or r[1].name.startswith('compute_')))(P.resolve_call(f_, c_))
+                                                 for c_ in astq.own_calls(f_)):
+            common.kernel_on_every_path(P, R, 'C14.c', f_, lambda g: g.name.startswith('_geometry_map_nested') or g.name.startswith('compute_'), 'the measure kernel',
+                                        'the measure is answered by a shortcut (cached or assumed value) instead of being computed from the element\'s coordinates')
     # scalars
     for mod, cls, L in geom.SCALARS:
         s = geom.scalar(P, mod, cls, L)
